@@ -228,3 +228,55 @@ def canon_func(f, loopvar: str = None, params: dict = None, loop_index: int = 0,
         elif isinstance(n, ast.arg) and n.arg in mapping:
             n.arg = mapping[n.arg]
     return dataclasses.replace(f, node=node)
+
+
+def hoist_calls(f, is_target, prefix: str = "_sa_bound"):
+    """A copy of FuncInfo `f` in which every call satisfying `is_target(call)` that is *not* already the whole right-hand side of
+    `name = call` is bound to a fresh name in a statement of its own, immediately before the simple statement that contains
+    it (`g(h(x))` -> `_sa_bound1 = h(x); g(_sa_bound1)`).  Rules that follow 'the object parsed' / 'the result of the check' by
+    name thereby hold whether or not the source spells the temporary out.  Calls inside compound-statement headers, lambdas and
+    comprehensions are left alone."""
+    import copy
+    import dataclasses
+
+    node = copy.deepcopy(f.node)
+    counter = [0]
+    changed = [False]
+
+    def rewrite(stmts):
+        out = []
+        for st in stmts:
+            for fld in ("body", "orelse", "finalbody"):
+                v = getattr(st, fld, None)
+                if isinstance(v, list) and v and isinstance(v[0], ast.stmt) and not isinstance(st, (ast.FunctionDef, ast.AsyncFunctionDef, ast.ClassDef)):
+                    setattr(st, fld, rewrite(v))
+            if isinstance(st, ast.Try):
+                for h in st.handlers:
+                    h.body = rewrite(h.body)
+            if isinstance(st, (ast.Expr, ast.Assign, ast.AugAssign, ast.AnnAssign, ast.Return, ast.Raise)):
+                direct = st.value if isinstance(st, (ast.Assign, ast.AnnAssign)) and (isinstance(st, ast.AnnAssign) or (len(st.targets) == 1 and isinstance(st.targets[0], ast.Name))) else None
+                skip = set()
+                for sc in ast.walk(st):
+                    if isinstance(sc, (ast.Lambda, ast.ListComp, ast.SetComp, ast.DictComp, ast.GeneratorExp)):
+                        skip.update(id(x) for x in ast.walk(sc))
+                for c in [c for c in ast.walk(st) if isinstance(c, ast.Call) and c is not direct and id(c) not in skip and is_target(c)]:
+                    counter[0] += 1
+                    nm = f"{prefix}{counter[0]}"
+
+                    class _R(ast.NodeTransformer):
+                        def visit_Call(self, n, _c=c, _nm=nm):
+                            if n is _c:
+                                return ast.copy_location(ast.Name(_nm, ast.Load()), n)
+                            return self.generic_visit(n)
+
+                    out.append(ast.copy_location(ast.Assign(targets=[ast.Name(nm, ast.Store())], value=c, lineno=st.lineno), st))
+                    st = _R().visit(st)
+                    changed[0] = True
+            out.append(st)
+        return out
+
+    node.body = rewrite(node.body)
+    if not changed[0]:
+        return f
+    ast.fix_missing_locations(node)
+    return dataclasses.replace(f, node=node)
